@@ -1,8 +1,22 @@
 (* C14 -- the loop bound of the iterative sampler as the SOURCE has it now (tools/consts2v.py -> Gen/ConstsGen.v): both the
    in-memory and the cache-file loop give up after the same number of iterations, which the per-run certificates use as the fuel
    of Model/Iterative.v (it_run); the theorems of Props/C14.v hold for every fuel.  Statement only. *)
-From TJ Require Import Gen.ConstsGen.
+From Coq Require Import QArith ZArith.
+From Coq Require Import PrimFloat Uint63.
+From TJ Require Import Gen.ConstsGen Proofs.GrowthCorner.
 
 Theorem C14_loop_bounds_agree : maxiter_inmem_gen = maxiter_file_gen /\ 1 <= maxiter_inmem_gen.
 Proof. split; [reflexivity|]. unfold maxiter_inmem_gen. repeat constructor. Qed.
+(* the sampler's estimate of the next batch size: mathematically >= 1 (the loop cannot stall), but 0 in binary64 at
+   safety_factor = n_need = 1, n_good = n_evals = 49 -- the early end Model/Iterative.v accepts through its flag early_ok *)
+Theorem C14_growth_estimate_ge_1 (safety n_need n_good n_evals : Z) :
+  (1 <= safety)%Z -> (1 <= n_need)%Z -> (1 <= n_good)%Z -> (n_good <= n_evals)%Z ->
+  (1 <= inject_Z safety * inject_Z n_need / inject_Z n_good * inject_Z n_evals)%Q.
+Proof. exact (growth_estimate_ge_1 safety n_need n_good n_evals). Qed.
+Theorem C14_growth_estimate_float_corner :
+  let est := PrimFloat.mul (PrimFloat.div (PrimFloat.mul (of_uint63 1) (of_uint63 1)) (of_uint63 49)) (of_uint63 49) in
+  PrimFloat.ltb est (of_uint63 1) = true /\ PrimFloat.leb (of_uint63 0) est = true.
+Proof. exact growth_estimate_float_corner. Qed.
 Print Assumptions C14_loop_bounds_agree.
+Print Assumptions C14_growth_estimate_ge_1.
+Print Assumptions C14_growth_estimate_float_corner.
